@@ -29,7 +29,7 @@ type c19DialOp struct {
 type c19DialCase struct {
 	Size     int           `json:"size"`
 	NHost    int           `json:"nhost"`
-	Rounds   [][]c19DialOp `json:"rounds"` // the operations of one round run at the same time (one goroutine each)
+	Rounds   [][]c19DialOp `json:"rounds"`    // the operations of one round run at the same time (one goroutine each)
 	DeadHost int           `json:"dead_host"` // this host resolves to a port nobody listens on (-1: none)
 }
 
